@@ -160,9 +160,9 @@ func negDivSeen(x asm.Expr, val func(name string) *big.Int) (v *big.Int, seen bo
 
 func runC07(c *Ctx) {
 	runPinned(c, "C07")
-	n := int64(30000)
+	n := int64(240000)
 	if c.Thorough() {
-		n = 1500000
+		n = 16000000
 	}
 	c.Cases(n, func(idx int64, r *Rng) {
 		big34 := r.Chance(1, 2)
